@@ -37,14 +37,43 @@ Definition jump_tgt_fn (nj : Z) (jctx : kv) : stage -> stage :=
   fun st => let r := reset_for_retry st in
             st_ctl (with_ctx r (kv_update (s_ctx r) jctx)) true nj (s_buffered r) (s_signal r).
 
-(* what an accepted jump source i -> target tg does to stage k (st = its row before the commit) *)
-Definition jump_effect (s : state) (src : stage) (i tg : nat) (jctx : kv) (k : nat) (st : stage) : stage :=
+(* ---- synthetic children (JumpToStageHandler._synthetic_reset_mutations): every re-armed stage is followed by one
+   reset_stage_for_retry per synthetic child (get_synthetic_stages = children, row order) ---- *)
+Definition reset_with_kids (s : state) (j : nat) : list nat := j :: children s j.
+
+(* everything the FIRST segment of the commit resets, in order: each re-armed downstream stage, then its children *)
+Definition jump_reset_list (s : state) (i tg : nat) : list nat := flat_map (reset_with_kids s) (jump_resets s i tg).
+
+(* the re-armed stages whose children are re-armed with them, in commit order *)
+Definition rearm_parents (s : state) (i tg : nat) : list nat :=
+  jump_resets s i tg ++ (if negb (i =? tg) && jump_backward s i tg then [i] else []) ++ [tg].
+Definition rearm_kids (s : state) (i tg : nat) : list nat := flat_map (children s) (rearm_parents s i tg).
+
+Definition count_nat (k : nat) (l : list nat) : nat := length (filter (Nat.eqb k) l).
+Definition iter_reset (n : nat) (st : stage) : stage := Nat.iter n reset_for_retry st.
+
+(* what an accepted jump does to a stage that is NOT a synthetic child of a re-armed stage (st = its row before) *)
+Definition jump_effect_top (s : state) (src : stage) (i tg : nat) (jctx : kv) (k : nat) (st : stage) : stage :=
   let nj := (s_jump_count src + 1)%Z in
   if k =? tg then jump_tgt_fn nj jctx st
   else if k =? i then jump_src_fn (jump_backward s i tg) nj st
   else if mem_nat k (closed_downstream s tg) then reset_for_retry st
   else if mem_nat k (jump_skipped s i tg) then to_skipped st
   else st.
+
+(* what an accepted jump source i -> target tg does to ANY stage k, exactly, in the order of the commit's four segments:
+   (1) re-armed downstream stages with their children (a stage met n times is reset n times), (2) skipped stages,
+   (3) the source (+ its children when the jump is backward), (4) the target + its children *)
+Definition jump_effect (s : state) (src : stage) (i tg : nat) (jctx : kv) (k : nat) (st : stage) : stage :=
+  let nj := (s_jump_count src + 1)%Z in
+  let backward := jump_backward s i tg in
+  let x1 := iter_reset (count_nat k (jump_reset_list s i tg)) st in
+  let x2 := if mem_nat k (jump_skipped s i tg) then to_skipped x1 else x1 in
+  let x3 := if i =? tg then x2
+            else let y := if k =? i then jump_src_fn backward nj x2 else x2 in
+                 if backward && mem_nat k (children s i) then reset_for_retry y else y in
+  let x4 := if k =? tg then jump_tgt_fn nj jctx x3 else x3 in
+  if mem_nat k (children s tg) then reset_for_retry x4 else x4.
 
 (* ---- the loop budget as a counter machine: one request = one JumpToStage handled for a source whose carried
    _jump_count is c under the effective maximum m ---- *)
